@@ -163,6 +163,74 @@ func runC14(c *Check) {
 			}
 		}
 		if ci.first == "" {
+			// the elements are built by a shared helper of the package that takes the kind as a
+			// parameter (perHeightKey(prefix, height)), or the key is a package value computed once
+			for _, b := range fn.Blocks {
+				ret, ok := b.Instrs[len(b.Instrs)-1].(*ssa.Return)
+				if !ok || len(ret.Results) != 1 {
+					continue
+				}
+				switch rv := ret.Results[0].(type) {
+				case *ssa.Call:
+					cal := rv.Common().StaticCallee()
+					if cal == nil || fnPkg(cal) == nil || fnPkg(cal).Pkg.Path() != storePkg || cal.Blocks == nil {
+						continue
+					}
+					for _, cb := range cal.Blocks {
+						for _, cin := range cb.Instrs {
+							al, ok := cin.(*ssa.Alloc)
+							if !ok {
+								continue
+							}
+							st := litStores(al)
+							if v := st["[0]"]; len(v) == 1 {
+								if prm, ok := v[0].(*ssa.Parameter); ok {
+									for i, q := range cal.Params {
+										if q == prm && i < len(rv.Common().Args) {
+											if k, ok := rv.Common().Args[i].(*ssa.Const); ok && k.Value != nil && k.Value.Kind() == constant.String {
+												ci.first = fmt.Sprintf("%q", constant.StringVal(k.Value))
+											}
+										}
+									}
+								}
+							}
+							if v := st["[1]"]; len(v) == 1 && ci.first != "" {
+								ci.suffix = TermOf(v[0], &Ctx{Fn: cal, Site: rv, Parent: ctx, Depth: 1})
+							}
+						}
+					}
+				case *ssa.UnOp:
+					gl, ok := rv.X.(*ssa.Global)
+					if !ok || rv.Op != token.MUL || gl.Pkg == nil || gl.Pkg.Pkg.Path() != storePkg {
+						continue
+					}
+					if initFn := gl.Pkg.Func("init"); initFn != nil {
+						for _, ib := range initFn.Blocks {
+							for _, iin := range ib.Instrs {
+								st, ok := iin.(*ssa.Store)
+								if !ok || st.Addr != ssa.Value(gl) {
+									continue
+								}
+								if call, ok := st.Val.(*ssa.Call); ok {
+									for _, a := range call.Common().Args {
+										if sl, ok := a.(*ssa.Slice); ok {
+											if al, ok := sl.X.(*ssa.Alloc); ok {
+												if v := litStores(al)["[0]"]; len(v) == 1 {
+													if k, ok := v[0].(*ssa.Const); ok && k.Value != nil && k.Value.Kind() == constant.String {
+														ci.first = fmt.Sprintf("%q", constant.StringVal(k.Value))
+													}
+												}
+											}
+										}
+									}
+								}
+							}
+						}
+					}
+				}
+			}
+		}
+		if ci.first == "" {
 			continue
 		}
 		ctors[fn] = ci
@@ -450,8 +518,8 @@ func runC14(c *Check) {
 			}
 		}
 	}
-	if nMeta < 5 {
-		c.Unk("C14-R2", "SetMetadata-call-sites", "", "", fmt.Sprintf("anchor lost: %d call sites (5 confirmed by hand)", nMeta))
+	if nMeta < 3 { // a floor against a vacuous pass, not the exact count: call sites may be merged into a helper
+		c.Unk("C14-R2", "SetMetadata-call-sites", "", "", fmt.Sprintf("anchor lost: %d call sites (5 on the pinned tree, at least 3 expected)", nMeta))
 	}
 
 	// functions of the store that (transitively) read the height record: a value they return is
